@@ -46,6 +46,12 @@ Definition allocation (calls : list (list Qc)) : Qc * Z :=
   let (mcs, fin) := cost_history None calls in
   let mc := match fin with Some c => c | None => Q2Qc 1 end in
   (qsum mcs, fold_right Z.add 0%Z (map (fun a => added_eval a mc) mcs)).
+(* get_allocation(idx): the same account restricted to the first k calls of the history (the model cost used to turn costs into
+   evaluation counts is still the value known at the time of the query) *)
+Definition allocation_upto (k : nat) (calls : list (list Qc)) : Qc * Z :=
+  let (mcs, fin) := cost_history None calls in
+  let mc := match fin with Some c => c | None => Q2Qc 1 end in
+  (qsum (firstn k mcs), fold_right Z.add 0%Z (map (fun a => added_eval a mc) (firstn k mcs))).
 (* what actually happened: (sum of reported costs, number of evaluations) *)
 Definition actual (calls : list (list Qc)) : Qc * Z :=
   (qsum (map qsum calls), Z.of_nat (length (concat calls))).
